@@ -108,7 +108,7 @@ func TestC20a(t *testing.T) {
 			if !strings.HasSuffix(text, "\n") {
 				text += "\n"
 			}
-			text += g.Rules[gspec.U(rt, len(g.Rules), "dupidx")].Name + " = 'dup' [0-9]\n"
+			text += g.Rules[gspec.U(rt, len(g.Rules), "dupidx")].Name + " = \"dup\" [0-9]\n"
 			sp.Features["rule_defined_twice"]++
 		}
 		kind, diff := checkC20a(text)
